@@ -594,13 +594,19 @@ class Renderer:
         decls = [i for i, it in enumerate(items) if it[0] == 'decl']
         lastdecl = decls[-1] if decls else -1
         for i, it in enumerate(items):
+            if it[0] == 'raw':
+                # injected text (C04): placed at a declaration boundary, i.e. after '{' or ';'
+                if out and not out[-1].rstrip().endswith((';', '*/')):
+                    out[-1] = out[-1].rstrip() + ';'
+                out.append(it[1])
+                continue
             if it[0] == 'comment':
                 # a block-level comment must follow '{' or ';'
                 if out and not out[-1].rstrip().endswith((';', '*/')) and any(x[0] == 'decl' for x in items[:i]):
                     out[-1] = out[-1].rstrip() + ';'
                 out.append('/*' + it[1] + '*/')
             else:
-                last = i == lastdecl and not any(x[0] == 'comment' for x in items[i + 1 :])
+                last = i == lastdecl and not any(x[0] in ('comment', 'raw') for x in items[i + 1 :])
                 out.append(self.decl(it, last))
         sep = self.nl() + (indent if self.s['ws'] == 'normal' else '')
         return sep.join(out)
@@ -699,6 +705,8 @@ class Renderer:
 
     def stmt(self, st):
         k = st[0]
+        if k == 'raw':
+            return st[1]
         if k == 'charset':
             return '@charset "%s";' % st[1]
         if k == 'comment':
@@ -811,6 +819,8 @@ def exp_comp_calc(c):
 def exp_items(items):
     out = []
     for it in items:
+        if it[0] == 'raw':
+            continue
         if it[0] == 'comment':
             out.append(('comment', '/*' + it[1] + '*/'))
         else:
@@ -900,6 +910,8 @@ class Expect:
         out = []
         for st in stmts:
             k = st[0]
+            if k == 'raw':
+                continue
             if k == 'comment':
                 if self.comments:
                     out.append(('comment', '/*' + st[1] + '*/'))
